@@ -102,10 +102,31 @@ func GenSchema(r *hk.Rng, table string) *Schema {
 		} else {
 			node = gen.GenExpr(r, o)
 		}
-		if node.Build().Validate() != nil || node.Build().EncodedWidth() == 0 {
+		// aggregates over constants (e.g. SUM(2)) report IsConstant() and make
+		// Sequence.ValueAt call Get(nil), which panics in a query goroutine and kills
+		// the process (followed up under C16); keep them out of DB-level schemas
+		for tries := 0; tries < 20 && (node.Build().Validate() != nil || node.Build().EncodedWidth() == 0 || node.Build().IsConstant()); tries++ {
 			node = gen.GenLeaf(r, o)
 		}
-		s.Fields = append(s.Fields, FieldDef{Name: fmt.Sprintf("f%d", i), Node: node})
+		if node.Build().IsConstant() {
+			node = &gen.Node{Kind: "agg", Name: "SUM", Kids: []*gen.Node{{Kind: "field", Name: "a"}}}
+		}
+		// two table fields that PRINT alike (same expression, or AVG(x) vs WAVG(x, w)) are
+		// sub-merged into each other by grouped queries (known finding field-identity-collision);
+		// generated schemas keep printed expressions distinct, the corpus keeps a witness
+		dupe := node.Build().String() == "SUM(_point)"
+		for _, f := range s.Fields {
+			if f.Node.Build().String() == node.Build().String() {
+				dupe = true
+			}
+		}
+		if dupe {
+			continue
+		}
+		s.Fields = append(s.Fields, FieldDef{Name: fmt.Sprintf("f%d", len(s.Fields)), Node: node})
+	}
+	if len(s.Fields) == 0 {
+		s.Fields = append(s.Fields, FieldDef{Name: "f0", Node: &gen.Node{Kind: "agg", Name: "SUM", Kids: []*gen.Node{{Kind: "field", Name: "a"}}}})
 	}
 	switch r.Intn(4) {
 	case 0:
